@@ -131,7 +131,7 @@ def gen_multi(rng):
         d = rng.choice(['$replace', '$merge'])
         if sub and rng.random() < 0.6:
             k = rng.choice(sub)
-            host, exp = {d: rng.choice([{'$match': pat, '$path': k}, [pat, k]])}, clone(tdoc[k])
+            host, exp = {d: rng.choice([{'$match': pat, '$path': k if '.' not in k else [k]}, [pat, k]])}, clone(tdoc[k])     # a key holding a dot needs the list form
         else:
             host, exp = {d: {'$match': pat}}, clone(tdoc)
         docs, expanded = [tdoc, host], [clone(tdoc), exp]
